@@ -82,6 +82,104 @@ PostK4Toom(f, i, o) ==
            /\ o.np = H2
            /\ o.r = ZAdd(L, ZMul(H2, Bn(i.off))) /\ Fits(o.r, i.n + i.off)
 
-FunsK4 == FunsK4Toom
-PostK4(f, i, o) == PostK4Toom(f, i, o)
+(* ---------------------------------------------------------------------- FFT: arithmetic mod p = 2^(64*limbs) + 1 ---- *)
+(* Representation (fft/fermat_to_mpz.c: "hi = i[limbs]; if (hi < 0L) { mpn_neg_n (m->_mp_d, m->_mp_d, limbs + 1); ... size negative"): a residue is the   *)
+(* limbs+1 limb vector read as a TWO'S COMPLEMENT integer, i.e. the top limb is a signed excess over the limbs-limb body; gmp-impl.h mpir_random_fermat     *)
+(* (the operand generator of every test in tests/fft) draws the top limb from (-1024, 1024).  The sources carry no contract comments; each contract below   *)
+(* is the reference computation of the routine's in-tree test program (tests/fft/t-*.c), which compares "mod p" (set_p: "p = 2^wn + 1") after converting    *)
+(* with mpir_fermat_to_mpz: a congruence on the signed values.  Only mpn_normmod_2expp1 promises a representation: the canonical residue.                  *)
+(* Vectors are logged as naturals (raw limbs); Sg gives the signed value.                                                                                  *)
+LOCAL Sg(v, L) == IF ZTestBit(v, W * (L + 1) - 1) THEN ZSub(v, ZPow2(W * (L + 1))) ELSE v
+LOCAL Pm(L) == ZAdd(ZPow2(W * L), "1")
+LOCAL CongP(a, b, L) == ZDivides(Pm(L), ZSub(a, b))
+LOCAL Raw(v, L) == Fits(v, L + 1)
+(* sqrt(2) mod p: 2^(3wn/4) - 2^(wn/4) with wn = 64*limbs (tests/fft/t-adjust_sqrt2.c ref_adjust_sqrt2, t-butterfly_sqrt2.c: "mpz_mul_2exp(s, t, 3*limbs*GMP_LIMB_BITS/4);   *)
+(* mpz_mul_2exp(t, t, limbs*GMP_LIMB_BITS/4); mpz_sub(t, s, t)")                                                                                             *)
+LOCAL Sqrt2(L) == ZSub(ZPow2(48 * L), ZPow2(16 * L))
+RECURSIVE RevBin(_, _)
+RevBin(v, bits) == IF bits = 0 THEN 0 ELSE (v % 2) * (2 ^ (bits - 1)) + RevBin(v \div 2, bits - 1)
+
+FunsK4Mod == {"mpn_normmod_2expp1", "mpn_mul_2expmod_2expp1", "mpn_div_2expmod_2expp1", "mpir_fft_adjust", "mpir_fft_adjust_sqrt2",
+              "mpir_butterfly_lshB", "mpir_butterfly_rshB", "mpir_fft_butterfly", "mpir_ifft_butterfly", "mpir_fft_butterfly_sqrt2", "mpir_ifft_butterfly_sqrt2",
+              "mpir_fft_butterfly_twiddle", "mpir_ifft_butterfly_twiddle", "mpir_fermat_to_mpz", "mpir_revbin"}
+
+PostK4Mod(f, i, o) ==
+   LET L == i.limbs  WN == W * i.limbs IN
+   CASE f = "mpn_normmod_2expp1" ->
+        \* fft/normmod_2expp1.c: "hi will now be in [-1,1]" ... "if we now have -1 (very unlikely)" add 1 once more; tests/fft/t-normmod_2expp1.c: any limbs+1 limb input
+        \* ("mpn_rrandom(nn, state, limbs + 1)"), the result converted by mpir_fermat_to_mpz must EQUAL "mpz_mod(m1, m1, p)": the canonical residue in [0, 2^wn].
+        /\ L >= 1 /\ Raw(i.a, L) /\ Raw(o.r, L)
+        /\ o.r = ZMod(Sg(i.a, L), Pm(L))
+     [] f = "mpn_mul_2expmod_2expp1" ->
+        \* tests/fft/t-mul_2expmod_2expp1.c: "for (d = 0; d < GMP_LIMB_BITS; d++)": r = i1 * 2^d mod p ("mpz_mul_2exp(m1, m1, d); mpz_mod(m1, m1, p)").
+        /\ L >= 1 /\ i.d >= 0 /\ i.d < W /\ Raw(i.a, L) /\ Raw(o.r, L)
+        /\ CongP(Sg(o.r, L), ZShl(Sg(i.a, L), i.d), L)
+     [] f = "mpn_div_2expmod_2expp1" ->
+        \* tests/fft/t-div_2expmod_2expp1.c: the result times 2^d is the operand mod p ("mpz_mul_2exp(m2, m2, d); mpz_mod(m2, m2, p); if (mpz_cmp(m1, m2) != 0)"); 0 <= d < 64.
+        /\ L >= 1 /\ i.d >= 0 /\ i.d < W /\ Raw(i.a, L) /\ Raw(o.r, L)
+        /\ CongP(ZShl(Sg(o.r, L), i.d), Sg(i.a, L), L)
+     [] f = "mpir_fft_adjust" ->
+        \* tests/fft/t-adjust.c ref_adjust: "mpz_mul_2exp(r, i1, w*i); mpz_mod(r, r, p)".  The callers pass i*w <= 64*limbs (= only in fft/ifft_negacyclic.c: "n - i/2" with i = 0).
+        /\ L >= 1 /\ i.i >= 0 /\ i.w >= 1 /\ i.i * i.w <= WN /\ Raw(i.a, L) /\ Raw(o.r, L)
+        /\ CongP(Sg(o.r, L), ZShl(Sg(i.a, L), i.i * i.w), L)
+     [] f = "mpir_fft_adjust_sqrt2" ->
+        \* tests/fft/t-adjust_sqrt2.c ref_adjust_sqrt2: "mpz_mul_2exp(r, i1, (w/2)*i + i/2); if (i & 1) { ... r*2^(3wn/4) - r*2^(wn/4) }", "for (c = 1; c < 2*n; c+=2)";
+        \* the callers use it for odd w and odd i only (fft_negacyclic.c, fft_trunc_sqrt2.c: "if (w & 1)").  = multiplication by sqrt(2)^(i*w).
+        /\ L >= 1 /\ i.w % 2 = 1 /\ i.i % 2 = 1 /\ WN % i.w = 0 /\ i.i < 2 * (WN \div i.w) /\ Raw(i.a, L) /\ Raw(o.r, L)
+        /\ CongP(Sg(o.r, L), ZMul(ZShl(Sg(i.a, L), (i.w \div 2) * i.i + i.i \div 2), Sqrt2(L)), L)
+     [] f = "mpir_butterfly_lshB" ->
+        \* tests/fft/t-butterfly_lshB.c ref_butterfly_lshB: "t = i1 + i2; u = i1 - i2; t <<= x*GMP_LIMB_BITS; u <<= y*GMP_LIMB_BITS; mod p"; "x %= limbs; y %= limbs".
+        /\ L >= 1 /\ i.x >= 0 /\ i.x < L /\ i.y >= 0 /\ i.y < L /\ Raw(i.a, L) /\ Raw(i.b, L) /\ Raw(o.s, L) /\ Raw(o.t, L)
+        /\ CongP(Sg(o.s, L), ZShl(ZAdd(Sg(i.a, L), Sg(i.b, L)), W * i.x), L)
+        /\ CongP(Sg(o.t, L), ZShl(ZSub(Sg(i.a, L), Sg(i.b, L)), W * i.y), L)
+     [] f = "mpir_butterfly_rshB" ->
+        \* tests/fft/t-butterfly_rshB.c ref_butterfly_rshB: "mult1 = 1/B^x mod p; mult2 = 1/B^y mod p; mult1 *= i1; mult2 *= i2; t = mult1 + mult2; u = mult1 - mult2".
+        \* Stated without inverses: t * B^(x+y) = i1 * B^y + i2 * B^x (B is a unit mod p).
+        /\ L >= 1 /\ i.x >= 0 /\ i.x < L /\ i.y >= 0 /\ i.y < L /\ Raw(i.a, L) /\ Raw(i.b, L) /\ Raw(o.s, L) /\ Raw(o.t, L)
+        /\ CongP(ZShl(Sg(o.s, L), W * (i.x + i.y)), ZAdd(ZShl(Sg(i.a, L), W * i.y), ZShl(Sg(i.b, L), W * i.x)), L)
+        /\ CongP(ZShl(Sg(o.t, L), W * (i.x + i.y)), ZSub(ZShl(Sg(i.a, L), W * i.y), ZShl(Sg(i.b, L), W * i.x)), L)
+     [] f = "mpir_fft_butterfly" ->
+        \* tests/fft/t-butterfly.c ref_fft_butterfly: "s = i1 + i2; t = i1 - i2; t <<= i*w; mod p", "for (c = 0; c < n; c++)" (n*w = 64*limbs).
+        /\ L >= 1 /\ i.i >= 0 /\ i.w >= 1 /\ i.i * i.w < WN /\ Raw(i.a, L) /\ Raw(i.b, L) /\ Raw(o.s, L) /\ Raw(o.t, L)
+        /\ CongP(Sg(o.s, L), ZAdd(Sg(i.a, L), Sg(i.b, L)), L)
+        /\ CongP(Sg(o.t, L), ZShl(ZSub(Sg(i.a, L), Sg(i.b, L)), i.i * i.w), L)
+     [] f = "mpir_ifft_butterfly" ->
+        \* tests/fft/t-butterfly.c ref_ifft_butterfly: "i2 <<= 2*n*w - i*w; s = i1 + i2; t = i1 - i2; mod p"  (2^(2nw) = 1 mod p: i2 is divided by 2^(i*w)).
+        /\ L >= 1 /\ i.i >= 0 /\ i.w >= 1 /\ i.i * i.w < WN /\ Raw(i.a, L) /\ Raw(i.b, L) /\ Raw(o.s, L) /\ Raw(o.t, L)
+        /\ CongP(ZShl(Sg(o.s, L), i.i * i.w), ZAdd(ZShl(Sg(i.a, L), i.i * i.w), Sg(i.b, L)), L)
+        /\ CongP(ZShl(Sg(o.t, L), i.i * i.w), ZSub(ZShl(Sg(i.a, L), i.i * i.w), Sg(i.b, L)), L)
+     [] f = "mpir_fft_butterfly_sqrt2" ->
+        \* tests/fft/t-butterfly_sqrt2.c ref_fft_butterfly_sqrt2: "t = i1 - i2; t <<= i*(w/2) + i/2; t = t*2^(3wn/4) - t*2^(wn/4); s = i1 + i2"; "w must be odd here"; "for (c = 1; c < 2*n; c+=2)".
+        LET e == i.i * (i.w \div 2) + i.i \div 2 IN
+        /\ L >= 1 /\ i.w % 2 = 1 /\ i.i % 2 = 1 /\ WN % i.w = 0 /\ i.i < 2 * (WN \div i.w) /\ Raw(i.a, L) /\ Raw(i.b, L) /\ Raw(o.s, L) /\ Raw(o.t, L)
+        /\ CongP(Sg(o.s, L), ZAdd(Sg(i.a, L), Sg(i.b, L)), L)
+        /\ CongP(Sg(o.t, L), ZMul(ZShl(ZSub(Sg(i.a, L), Sg(i.b, L)), e), Sqrt2(L)), L)
+     [] f = "mpir_ifft_butterfly_sqrt2" ->
+        \* ref_ifft_butterfly_sqrt2: "s = i2 << (2*n*w - i*(w/2) - 1 - i/2); i2 = s*2^(3wn/4) - s*2^(wn/4); s = i1 + i2; t = i1 - i2"  (i2 * sqrt2 / 2^(e+1)).
+        LET e == i.i * (i.w \div 2) + i.i \div 2 + 1 IN
+        /\ L >= 1 /\ i.w % 2 = 1 /\ i.i % 2 = 1 /\ WN % i.w = 0 /\ i.i < 2 * (WN \div i.w) /\ Raw(i.a, L) /\ Raw(i.b, L) /\ Raw(o.s, L) /\ Raw(o.t, L)
+        /\ CongP(ZShl(Sg(o.s, L), e), ZAdd(ZShl(Sg(i.a, L), e), ZMul(Sg(i.b, L), Sqrt2(L))), L)
+        /\ CongP(ZShl(Sg(o.t, L), e), ZSub(ZShl(Sg(i.a, L), e), ZMul(Sg(i.b, L), Sqrt2(L))), L)
+     [] f = "mpir_fft_butterfly_twiddle" ->
+        \* tests/fft/t-butterfly_twiddle.c ref_fft_butterfly_twiddle: "s = i1 + i2; t = i1 - i2; s <<= b1; t <<= b2; mod p"; the code reduces b >= nw once ("if (b1 >= nw) { negate2 = 1; b1 -= nw; }"): b < 2nw.
+        /\ L >= 1 /\ i.b1 >= 0 /\ i.b1 < 2 * WN /\ i.b2 >= 0 /\ i.b2 < 2 * WN /\ Raw(i.a, L) /\ Raw(i.b, L) /\ Raw(o.s, L) /\ Raw(o.t, L)
+        /\ CongP(Sg(o.s, L), ZShl(ZAdd(Sg(i.a, L), Sg(i.b, L)), i.b1), L)
+        /\ CongP(Sg(o.t, L), ZShl(ZSub(Sg(i.a, L), Sg(i.b, L)), i.b2), L)
+     [] f = "mpir_ifft_butterfly_twiddle" ->
+        \* ref_ifft_butterfly_twiddle: "i1 <<= 2*n*w - b1; i2 <<= 2*n*w - b2; s = i1 + i2; t = i1 - i2": u * 2^(b1+b2) = i1 * 2^b2 + i2 * 2^b1.
+        /\ L >= 1 /\ i.b1 >= 0 /\ i.b1 < 2 * WN /\ i.b2 >= 0 /\ i.b2 < 2 * WN /\ Raw(i.a, L) /\ Raw(i.b, L) /\ Raw(o.s, L) /\ Raw(o.t, L)
+        /\ CongP(ZShl(Sg(o.s, L), i.b1 + i.b2), ZAdd(ZShl(Sg(i.a, L), i.b2), ZShl(Sg(i.b, L), i.b1)), L)
+        /\ CongP(ZShl(Sg(o.t, L), i.b1 + i.b2), ZSub(ZShl(Sg(i.a, L), i.b2), ZShl(Sg(i.b, L), i.b1)), L)
+     [] f = "mpir_fermat_to_mpz" ->
+        \* fft/fermat_to_mpz.c: the mpz receives the two's complement value of {i, limbs+1}, normalised ("while ((m->_mp_size) && (!m->_mp_d[m->_mp_size - 1])) m->_mp_size--").
+        /\ L >= 1 /\ Raw(i.a, L)
+        /\ o.v = Sg(i.a, L)
+        /\ o.sz = (IF ZIsNeg(o.v) THEN -1 ELSE 1) * ZLimbCount(o.v)
+     [] f = "mpir_revbin" ->
+        \* fft/revbin.c: "computes the reverse binary of a binary number of the given number of bits".
+        /\ i.bits >= 0 /\ i.bits <= 30 /\ i.v >= 0 /\ i.v < 2 ^ i.bits
+        /\ o.r = RevBin(i.v, i.bits)
+
+FunsK4 == FunsK4Toom \cup FunsK4Mod
+PostK4(f, i, o) == IF f \in FunsK4Toom THEN PostK4Toom(f, i, o) ELSE PostK4Mod(f, i, o)
 =============================================================================
